@@ -323,7 +323,7 @@ func drawC03(t *rapid.T) C03Case {
 		MaxDec:    rapid.SampledFrom([]int{2, 4, 8}).Draw(t, "maxDec"),
 		WideDates: true,
 	}
-	gen.MaybeLarge(t, &cfg, 40)
+	gen.MaybeLarge(t, &cfg, 4)
 	j := gen.GenJournal(t, cfg)
 	if rapid.IntRange(0, 3).Draw(t, "shuffle") == 0 {
 		j.Directives = gen.Shuffle(t, j.Directives)
